@@ -33,11 +33,13 @@ def run(chk, repo):
     chk.rule("C18-E5", "leader / volume directory / image descriptor structs consist of definite-width fields", 3)
     chk.attempt(e1, chk, op)
     tie = chk.attempt(e3, chk, op)
-    chk.attempt(trace_truncation, chk, op, bool(tie))
+    chk.attempt(trace_truncation, chk, op, tie)
     chk.attempt(e2, chk, op, covered_by="trace_truncation")
     chk.attempt(e4, chk, op)
     chk.rule("C18-E6", "every loop on the open path is bounded: for-loops over finite collections; a while-loop makes progress in every iteration or leaves on a short/empty read", 0)
     chk.attempt(e6, chk, op, covered_by="trace_truncation")
+    chk.rule("C18-E8", "construct classes of the package read from the stream only through length-checked reads", 0)
+    chk.attempt(e8, chk, op)
     from ..layout import UnmodelledConstruct
     L = Layouts(repo)
     SWALLOWING = {"Optional", "Select", "GreedyRange", "GreedyBytes", "GreedyString", "Peek", "RepeatUntil", "Default", "NullTerminated", "CString", "StopIf", "IfThenElse", "If", "Switch", "LazyStruct", "Lazy"}
@@ -190,6 +192,42 @@ def e3(chk, op):
     chk.require(ok, "C18-E3", f"{md.relpath}:transform_metadata", "per-line variables are built from the full list of parsed records",
                 "per-line variables are not built from the parsed records list", key="lines-from-records")
     return bool(tie)
+
+
+def e8(chk, op):
+    """construct classes written in the package read from the stream only through a length-checked read: construct's own
+    stream_read raises on a short block; a bare stream.read(n) in a _parse method hands back what is left, so a field cut off by
+    the end of the file decodes to a shortened or empty value instead of failing"""
+    from .common_rules import CONSTRUCT_BASES
+    repo = op.repo
+    n = 0
+    for mod in repo.modules.values():
+        if mod.name.endswith(".testing"):
+            continue
+        for q, cls in mod.classes.items():
+            fi = mod.funcs.get(f"{q}._parse")
+            if fi is None:
+                continue
+            stream = fi.positional_params[1] if len(fi.positional_params) > 1 else None
+            flow = Flow(fi)
+            for c in calls_in(fi):
+                if isinstance(c.func, ast.Attribute) and c.func.attr in ("read", "read1", "readinto") and isinstance(c.func.value, ast.Name) and c.func.value.id == stream:
+                    n += 1
+                    # the block that came back is measured against what was asked for, and a raise depends on it
+                    st = c
+                    while not isinstance(st, ast.stmt):
+                        st = st._parent
+                    tgt = st.targets[0].id if isinstance(st, ast.Assign) and isinstance(st.targets[0], ast.Name) else None
+                    checked = False
+                    for r in fi.own_nodes():
+                        if isinstance(r, ast.Raise):
+                            for test, pol in guards_of(r, fi.node):
+                                if tgt and any(isinstance(x, ast.Call) and isinstance(x.func, ast.Name) and x.func.id == "len" and x.args and norm(x.args[0]) == tgt for x in ast.walk(test)):
+                                    checked = True
+                    chk.require(checked, "C18-E8", f"{mod.relpath}:{q}._parse", f"{short(c, 40)} is followed by a length check that raises",
+                                f"{short(c, 40)} in {q}._parse takes whatever is left in the stream: no check that {stream}.read returned the requested number of bytes, so a field cut off by the end of "
+                                f"the file decodes to a shortened / empty value instead of raising (construct's own fields use stream_read, which raises StreamError)", key=f"{mod.name}:{q}:bare-read")
+    chk.count("raw_stream_reads_in_construct_classes", n)
 
 
 def trace_truncation(chk, op, rows_tie):
